@@ -27,8 +27,7 @@ from coqterm import cstr, copt, clist, cbool
 import c17_gen as G
 
 IMPORTS = "From XV Require Import Base.Str Base.Eqb Spec.WsdlSpec Model.Wsdl Model.WsdlCorr."
-CLASSES = {2: "rpc-response-wrapper-name", 3: "empty-soapaction-dropped",
-           5: "document-type-part-accessor", 6: "rpc-element-part-no-accessor",
+CLASSES = {2: "rpc-response-wrapper-name",            5: "document-type-part-accessor", 6: "rpc-element-part-no-accessor",
            7: "rpc-body-parts-ignored", 8: "duplicate-service-name-last-wins",
            10: "rpc-message-shadows-schema-element"}
 DIRECTED = [
